@@ -442,15 +442,8 @@ Definition still_requested (n : snap) (tid : nat) : bool :=
 Definition next_awaited (aw : list nat) (n : snap) : list nat :=
   filter (still_requested n) (aw ++ sent_requests n).
 
-Definition check_step (aw : list nat) (p : option snap) (o : zop) (n : snap) : list nat :=
-  if negb (is_peer o) then [] else
-  (* 9: the id was marked requested, but no request for it had gone out (the send failed) *)
-  clause 9 (forallb (fun e => negb (changed p e) || negb (is_requested (prev_store p (fst e))) || mem (fst e) aw)
-                    (sn_store n)) ++
-  (* 5 / 8: a peer message changes the stored value of an id only while that id is requested and
-     not received: 5 = it replaced a tree that was present, 8 = it stored under an id that was absent *)
-  clause 5 (forallb (fun e => negb (changed p e) || negb (is_present (prev_store p (fst e)))) (sn_store n)) ++
-  clause 8 (forallb (fun e => negb (changed p e) || negb (is_absent (prev_store p (fst e)))) (sn_store n)) ++
+(* clauses 6 and 7: what the description carried by the message demands *)
+Definition step_tail (aw : list nat) (p : option snap) (o : zop) (n : snap) : list nat :=
   match o with
   | PResponseTree (Some m) (Some ro) =>
       if malformed m ro || (tm_tid m =? 0)
@@ -474,6 +467,17 @@ Definition check_step (aw : list nat) (p : option snap) (o : zop) (n : snap) : l
                                   existsb (fun m' => (tm_tid m' =? tm_tid m) && stored_describes n m' ro) good) good)
   | _ => []
   end.
+
+Definition check_step (aw : list nat) (p : option snap) (o : zop) (n : snap) : list nat :=
+  if negb (is_peer o) then [] else
+  (* 9: the id was marked requested, but no request for it had gone out (the send failed) *)
+  clause 9 (forallb (fun e => negb (changed p e) || negb (is_requested (prev_store p (fst e))) || mem (fst e) aw)
+                    (sn_store n)) ++
+  (* 5 / 8: a peer message changes the stored value of an id only while that id is requested and
+     not received: 5 = it replaced a tree that was present, 8 = it stored under an id that was absent *)
+  clause 5 (forallb (fun e => negb (changed p e) || negb (is_present (prev_store p (fst e)))) (sn_store n)) ++
+  clause 8 (forallb (fun e => negb (changed p e) || negb (is_absent (prev_store p (fst e)))) (sn_store n)) ++
+  step_tail aw p o n.
 
 Fixpoint check_hist (aw : list nat) (p : option snap) (ops : list zop) (snaps : list snap) : list nat :=
   match ops, snaps with
